@@ -241,7 +241,12 @@ class TU:
         if trace_property:
             cmd += ['--trace', '--property', trace_property, '--json-ui']
         rc, out, err, dt = run(cmd, timeout=timeout)
-        res = {'entry': entry, 'choices': list(choices), 'wall_s': round(dt, 2), 'rc': rc, 'cmd': ' '.join(cmd)}
+        solver = 'minisat (cbmc default)'
+        if rc == -9 and '--sat-solver' not in cmd:
+            # the propositional instance of a vector is occasionally hard for MiniSat (measured: > 900 s) and trivial for CaDiCaL (5 s): second back end before giving up
+            rc, out, err, dt2 = run(cmd + ['--sat-solver', 'cadical'], timeout=timeout)
+            dt += dt2; solver = 'cadical (after a MiniSat time-out)'
+        res = {'entry': entry, 'choices': list(choices), 'wall_s': round(dt, 2), 'rc': rc, 'cmd': ' '.join(cmd), 'sat_backend': solver}
         try:
             os.unlink(sk)
         except OSError:
